@@ -87,9 +87,6 @@ class Report(object):
     def floor(self, name, observed, floor):
         """A count confirmed by hand; falling under it means a rule silently matches nothing."""
         self.floors.append((name, observed, floor))
-        if observed < floor:
-            raise AnalysisError('floor %s: analysed %d < %d confirmed on the pinned tree -- rule would pass vacuously'
-                                % (name, observed, floor))
 
     def note(self, s):
         self.notes.append(s)
@@ -199,7 +196,16 @@ def finish(report, explanation, assumptions, rule_text, level='other', extra_cov
     for f, p in zip(violations, replay_paths):
         print('  ' + f.text())
         print('VIOLATION property=%s replay=%s' % (pid, p))
-    return 1 if violations else 0
+    if violations:
+        return 1
+    low = [(n, o, fl) for (n, o, fl) in report.floors if o < fl]
+    if low:
+        # no violation found, but a rule matched fewer sites than confirmed by hand: it would pass vacuously
+        for (n, o, fl) in low:
+            print('ANALYSIS-ERROR property=%s floor `%s`: analysed %d < %d confirmed on the pinned tree -- the rule would pass vacuously'
+                  % (pid, n, o, fl))
+        return 2
+    return 0
 
 
 def run_check(pid, fn, tier='quick', replay=None):
